@@ -2407,6 +2407,73 @@ def decide_ites(t, facts):
     return out
 
 
+def eval_closed(t):
+    """The Python value of a closed arithmetic / boolean / tuple term (no
+    parameter, call result or merge left in it); AnalysisError otherwise."""
+    import operator as op_
+    BIN = {"Add": op_.add, "Sub": op_.sub, "Mult": op_.mul,
+           "FloorDiv": op_.floordiv, "Mod": op_.mod, "LShift": op_.lshift,
+           "RShift": op_.rshift, "BitAnd": op_.and_, "BitOr": op_.or_,
+           "BitXor": op_.xor, "Pow": op_.pow, "Div": op_.truediv}
+    CMP = {"Lt": op_.lt, "LtE": op_.le, "Gt": op_.gt, "GtE": op_.ge,
+           "Eq": op_.eq, "NotEq": op_.ne, "Is": op_.is_,
+           "IsNot": op_.is_not,
+           "In": lambda a, b: a in b, "NotIn": lambda a, b: a not in b}
+    FN = {"int": int, "min": min, "max": max, "abs": abs, "bool": bool,
+          "len": len, "divmod": divmod, "float": float, "round": round}
+    if not isinstance(t, tuple) or not t:
+        raise AnalysisError("not a term")
+    k = t[0]
+    if k == "const":
+        return t[1]
+    if k == "tuple":
+        return tuple(eval_closed(x) for x in t[1:])
+    try:
+        if k == "binop" and t[1] in BIN:
+            a, b = eval_closed(t[2]), eval_closed(t[3])
+            if t[1] in ("LShift", "Pow") and isinstance(b, int) and \
+                    abs(b) > 4096:
+                raise AnalysisError("operand too large to fold")
+            return BIN[t[1]](a, b)
+        if k == "unop":
+            a = eval_closed(t[2])
+            return {"USub": op_.neg, "UAdd": op_.pos, "Invert": op_.invert,
+                    "Not": op_.not_}[t[1]](a)
+        if k == "cmp" and t[1] in CMP:
+            return CMP[t[1]](eval_closed(t[2]), eval_closed(t[3]))
+        if k == "not":
+            return not eval_closed(t[1])
+        if k == "and":
+            v = True
+            for x in t[1:]:
+                v = eval_closed(x)
+                if not v:
+                    return v
+            return v
+        if k == "or":
+            v = False
+            for x in t[1:]:
+                v = eval_closed(x)
+                if v:
+                    return v
+            return v
+        if k == "ite":
+            return eval_closed(t[2]) if eval_closed(t[1]) else \
+                eval_closed(t[3])
+        if k == "call" and t[1][0] == "global" and t[1][1] in FN and \
+                not t[3]:
+            return FN[t[1][1]](*[eval_closed(x) for x in t[2]])
+        if k == "comp":
+            return eval_closed(t[1])[t[2]]
+        if k == "item":
+            return eval_closed(t[1])[eval_closed(t[2])]
+    except AnalysisError:
+        raise
+    except Exception as e:
+        raise AnalysisError("folding failed: %s" % e)
+    raise AnalysisError("not a closed foldable term: %s" % (k,))
+
+
 def fold_consts(t, evaluate):
     """``t`` with every closed sub-term (no parameter, loop element, merged
     or call-site dependent part) that ``evaluate(ast expression)`` can turn
